@@ -119,14 +119,14 @@ also = {
  "C09": "type-blind documents ≤7/12 tokens; the same links after walking under an empty rule list, a single rule and validator.Walk with no observer",
  "C10": "type-blind documents ≤5/9 tokens; every pair of rejected kit items as separate source files × every policy; the error list after ReplaceRule of every rule / single rules by themselves",
  "C11": "14 operations; a canonical dump of every package-level variable of the library compared around every operation, including its first run in the process",
- "C12": "full-name sentences ≤7/9 tokens; 22 awkward characters incl. U+FFFD; tree-edits (every non-constant value of the profile trees replaced by a variable / block string / awkward string / list: trees the parser did not build)",
+ "C12": "22 awkward characters incl. U+FFFD; tree-edits (every non-constant value of the profile trees replaced by a variable / block string / awkward string / list: trees the parser did not build)",
  "C13": "type-system sentences ≤5/7 tokens; default-values, root-names (every root configuration × a type of each kind named like a free default root), the text compared under descending and rotated map iteration orders",
  "C14": "two-schemas (sequences of coercions over two schemas with same-named enum / input object); ≤2/4 deviations; 20 input-object variants incl. aliased maps and __-prefixed keys; 8 ways of writing a default",
  "C15": "expectation from the check's own variable model; shared-fragments, list-depth ([[[Int]]] variables), directive-sites (sites × directives incl. redeclared built-ins × argument sources), schema-versions, abstract-scope",
  "C16": "call-histories (every sequence of ≤3/4 limited / unlimited parser calls equals the calls on their own, comments included); limits −2…N+2; pairs of sources × built-in flags × limits through ParseSchemasWithLimit (same tree and built-in flags); limit 0 / 2³⁰ = unlimited on all families to 64 KiB; limit −1 on the families",
  "C17": "quick also pairs every extension with every described definition",
  "C18": "type-blind documents ≤5/9 tokens; the explicitly empty rule list; explicit-state search over the global rule registry (every sequence of ≤4/6 AddRule / RemoveRule / ReplaceRule operations from 11, states = registry contents, every transition executed on the real registry); documents with several hundred errors",
- "C19": "full-name sentences ≤7/9 tokens; comments at every gap, chains of 1…48 nested selections, the indented, generically re-encoded and null-dropped spelling of the JSON, decoding into used targets, awkward string values, validated documents",
+ "C19": "comments at every gap, chains of 1…48 nested selections, the indented, generically re-encoded and null-dropped spelling of the JSON, decoding into used targets, awkward string values, validated documents",
  "C20": "without-suggestions variants, ReplaceRule-registered rules, sources flagged built-in, errors located in the prelude, documents with several hundred errors, paths ≤5/6 over 9 elements incl. names with control characters",
 }
 for k, v in also.items():
